@@ -567,8 +567,90 @@ def check_table(ctx):
     ctx.count("table:event_parameters=%d" % len(constants.ALL_EVENT_PARAMETERS))
 
 
+
+def dict_reuse_cases(ctx):
+    """'arguments resolved once per event': a dict-generating pattern may hand the SAME dict object back on every pass
+    (a looping PSequence of dicts, a PConstant dict); every pass must be performed like the first — resolution
+    (degree -> note, + 12*octave + transpose, defaults) must not accumulate in, or otherwise alter, the caller's dict
+    (oracle on the implementation alone)."""
+    from .. import common
+    common.ensure_repo_on_path()
+    import isobar as iso
+    from isobar.io.output import OutputDevice
+    r = ctx.rng
+
+    class Rec(OutputDevice):
+        def __init__(self):
+            super().__init__()
+            self.calls = []
+
+        def note_on(self, note=60, velocity=64, channel=0):
+            self.calls.append(("on", note, velocity, channel))
+
+        def control(self, control=0, value=0, channel=0):
+            self.calls.append(("cc", control, value, channel))
+    for i in range(ctx.scale(120, 3000)):
+        n = r.randint(1, 3)
+        dicts = []
+        for _ in range(n):
+            d = {"duration": 1}
+            kind = r.random()
+            if kind < 0.45:
+                d["degree"] = r.choice([0, 1, 2, 4, -3, (0, 2, 4)])
+                if r.random() < 0.5:
+                    d["key"] = r.choice(["C major", "F# minor"])
+            elif kind < 0.85:
+                d["note"] = r.choice([60, 48, (60, 64, 67)])
+            else:
+                d.update(control=r.randint(0, 100), value=r.randint(0, 127))
+            if "control" not in d:
+                if r.random() < 0.7:
+                    d["octave"] = r.choice([1, 2, -1])
+                if r.random() < 0.7:
+                    d["transpose"] = r.choice([2, 7, -5])
+                if r.random() < 0.4:
+                    d["amplitude"] = r.choice([30, 100])
+            dicts.append(d)
+        originals = [dict(d) for d in dicts]
+        dev = Rec()
+        tl = iso.Timeline(120, output_device=dev, clock_source=iso.DummyClock(ticks_per_beat=1))
+        passes = r.randint(2, 4)
+        via = r.choice(["psequence-of-dicts", "pconstant"]) if n == 1 else "psequence-of-dicts"
+        stream = iso.PSequence(dicts, passes) if via == "psequence-of-dicts" else iso.PSequence([iso.PConstant(dicts[0])], passes)
+        if via == "pconstant":
+            stream = iso.PSequence([dicts[0]], passes)
+        tl.schedule(stream)
+        per_tick = []
+        err = None
+        for j in range(n * passes):
+            before = len(dev.calls)
+            try:
+                tl.tick()
+            except Exception as ex:
+                err = "%s at event %d" % (type(ex).__name__, j)
+                break
+            per_tick.append(dev.calls[before:])
+        ctx.case(("dict-reuse", repr(originals), passes), nontrivial=True, validated=False,
+                 sample={"dict_reuse": {"dicts": repr(originals)[:200], "passes": passes}} if i < 2 else None)
+        ctx.count("dict-reuse:n=%d" % n)
+        rp = {"suite": "dict-reuse", "dicts": repr(originals), "passes": passes}
+        if err:
+            ctx.violation("C03:dict-reuse:raised", "a dict stream that hands the same dicts back raised %s" % err, rp)
+            continue
+        first = per_tick[:n]
+        for p_ in range(1, passes):
+            if per_tick[p_ * n:(p_ + 1) * n] != first:
+                ctx.violation("C03:dict-reuse:pass-differs",
+                              "pass %d of the same dicts performed %s, the first pass %s" % (p_ + 1, per_tick[p_ * n:(p_ + 1) * n], first), rp)
+                break
+        else:
+            if dicts != originals:
+                ctx.violation("C03:dict-reuse:caller-dict-modified", "the caller's dicts were modified: %r -> %r" % (originals, dicts), rp)
+
+
 def run(ctx):
     check_table(ctx)
+    dict_reuse_cases(ctx)
     cases = type_product_cases() + corpus_cases()
     ctx.extra["exhaustive"] = False
     ctx.extra["finite_part_enumerated_completely"] = "all 2^7 subsets of type-selecting keys x {note, degree} x {pitch key first, last}"
